@@ -24,3 +24,10 @@ pub assume_specification [u8::from_str_radix] (src: &str, radix: u32) -> (r: cor
 // `c.to_string()` for a char is the one-char string
 #[verifier::external_body]
 pub fn __char_to_string(c: char) -> (r: String) ensures r@ == seq![c] { c.to_string() }
+// R18: `Cow<'_, [u8]>` is replaced by `Vec<u8>` (same byte content; borrowing vs owning is dropped)
+#[verifier::external_body]
+pub fn __cow_borrowed(x: &[u8]) -> (r: Vec<u8>) ensures r@ == x@ { x.to_vec() }
+pub fn __cow_owned(x: Vec<u8>) -> (r: Vec<u8>) ensures r@ == x@ { x }
+pub assume_specification<T> [<[T]>::to_vec] (s: &[T]) -> (r: std::vec::Vec<T>)
+    where T: core::clone::Clone
+    ensures r@ == s@;
